@@ -1,17 +1,20 @@
 package main
 
 import (
+	"context"
 	"fmt"
 	"sort"
 	"strings"
 	"time"
 
+	"github.com/redis/go-redis/v9"
 	"github.com/spikeekips/mitum/base"
 	"github.com/spikeekips/mitum/isaac"
 	isaacblock "github.com/spikeekips/mitum/isaac/block"
 	isaacdatabase "github.com/spikeekips/mitum/isaac/database"
 	"github.com/spikeekips/mitum/launch"
 	leveldbstorage "github.com/spikeekips/mitum/storage/leveldb"
+	redisstorage "github.com/spikeekips/mitum/storage/redis"
 	"github.com/spikeekips/mitum/util"
 	"github.com/spikeekips/mitum/util/encoder"
 	jsonenc "github.com/spikeekips/mitum/util/encoder/json"
@@ -61,7 +64,10 @@ type c19db struct {
 	env     *c19env
 	st      *leveldbstorage.Storage
 	permst  *leveldbstorage.Storage
-	perm    *isaacdatabase.LeveldbPermanent
+	perm    isaac.PermanentDatabase
+	redis   *redis.Options // when set, the permanent database is the Redis-backed one (C26)
+	prefix  string
+	mirror  *c19db // a second database that receives the very same objects (C26)
 	center  *isaacdatabase.Center
 	mapIDs  map[string]string // manifest hash -> id
 	proofID map[string]string // suffrage state hash -> id
@@ -73,9 +79,23 @@ type c19db struct {
 }
 
 func (d *c19db) open() error {
-	perm, err := isaacdatabase.NewLeveldbPermanent(d.permst, d.env.encs, d.env.enc, d.stcache)
-	if err != nil {
-		return err
+	var perm isaac.PermanentDatabase
+	if d.redis != nil {
+		rst, err := redisstorage.NewStorage(context.Background(), d.redis, d.prefix)
+		if err != nil {
+			return err
+		}
+		p, err := isaacdatabase.NewRedisPermanent(rst, d.env.encs, d.env.enc, d.stcache)
+		if err != nil {
+			return err
+		}
+		perm = p
+	} else {
+		p, err := isaacdatabase.NewLeveldbPermanent(d.permst, d.env.encs, d.env.enc, d.stcache)
+		if err != nil {
+			return err
+		}
+		perm = p
 	}
 	center, err := isaacdatabase.NewCenter(d.st, d.env.encs, d.env.enc, perm, func(h base.Height) (isaac.BlockWriteDatabase, error) {
 		return isaacdatabase.NewLeveldbBlockWrite(h, d.st, d.env.encs, d.env.enc), nil
@@ -156,32 +176,41 @@ func (d *c19db) write(b *c19block) error {
 	d.counter++
 	b.MapID = fmt.Sprintf("m%d.%d", b.Height, d.counter)
 	d.mapIDs[manifest.Hash().String()] = b.MapID
-	w, err := d.center.NewBlockWriteDatabase(height)
-	if err != nil {
-		return err
-	}
-	if err := w.SetBlockMap(m); err != nil {
-		return err
-	}
-	if err := w.SetStates(sts); err != nil {
-		return err
-	}
 	var known []util.Hash
 	for _, o := range b.Known {
 		known = append(known, d.opHash(o))
 	}
-	if err := w.SetOperations(known); err != nil {
-		return err
-	}
-	if sufst != nil {
-		if err := w.SetSuffrageProof(isaacblock.NewSuffrageProof(m, sufst, fixedtree.Proof{})); err != nil {
+	store := func(x *c19db) error {
+		w, err := x.center.NewBlockWriteDatabase(height)
+		if err != nil {
 			return err
 		}
+		if err := w.SetBlockMap(m); err != nil {
+			return err
+		}
+		if err := w.SetStates(sts); err != nil {
+			return err
+		}
+		if err := w.SetOperations(known); err != nil {
+			return err
+		}
+		if sufst != nil {
+			if err := w.SetSuffrageProof(isaacblock.NewSuffrageProof(m, sufst, fixedtree.Proof{})); err != nil {
+				return err
+			}
+		}
+		if err := w.Write(); err != nil {
+			return err
+		}
+		return x.center.MergeBlockWriteDatabase(w)
 	}
-	if err := w.Write(); err != nil {
+	if err := store(d); err != nil {
 		return err
 	}
-	return d.center.MergeBlockWriteDatabase(w)
+	if d.mirror != nil {
+		return store(d.mirror)
+	}
+	return nil
 }
 
 func (d *c19db) proofName(p base.SuffrageProof, found bool, err error) string {
